@@ -211,11 +211,27 @@ impl VoiceOracle {
                                 None => false,
                             }
                     });
-                    let oc = oracle::children_of(&old_shapes[i]);
-                    let nc = oracle::children_of(&new_shapes[j]);
+                    // a composite reached through `wrap` pass-through functions: each wrapper is
+                    // a call node with exactly one child
                     let old_site = &self.sites[i];
+                    let (mut os, mut ns) = (old_shapes[i].clone(), new_shapes[j].clone());
+                    let mut peeled = old_site.voice.wrap == nv.wrap;
+                    for _ in 0..nv.wrap {
+                        let (c1, c2) = (oracle::children_of(&os), oracle::children_of(&ns));
+                        if c1.len() != 1 || c2.len() != 1 {
+                            peeled = false;
+                            break;
+                        }
+                        os = c1[0].clone();
+                        ns = c2[0].clone();
+                    }
+                    let oc = oracle::children_of(&os);
+                    let nc = oracle::children_of(&ns);
+                    if nv.wrap >= 3 {
+                        res.bump("inner_edits_four_or_more_calls_below_dsp");
+                    }
                     let mut model = old_site.model.clone();
-                    let mut known = old_site.known && others_forced && oc.len() == 2 && nc.len() == 2;
+                    let mut known = old_site.known && others_forced && peeled && oc.len() == 2 && nc.len() == 2;
                     if known {
                         match nv.kind {
                             crate::voices::Kind::Duo => {
